@@ -24,15 +24,21 @@
         entry of `bA.entries` is a paragraph / setext / heading / thematicBreak / quote / table, then
         for every `rest` the run on `A ++ "\n" :: rest` reaches position `A.length + 1` with
         accumulator `bA.entries.reverse`, state `stA`, `loose := true`.
-      PROVED (`_partial`): the same conclusion under the hypothesis that EVERY top-level entry of
-      `bA.entries` is of one of those kinds (nested content of quotes is arbitrary).  Why the
-      restriction: the readers of those kinds (and `Footnote.read`, `Table.read` probes) stop at a
-      blank line exactly as at the end of input, which gives a one-lemma-per-reader simulation.
-      BlockCode, CodeFence, List and HtmlBlock read across blank lines; for an earlier block of such a
-      kind one has to show that its reader stopped before looking at the end of A (true whenever a
-      later block exists, but that needs a "did not peek past the end" argument per reader, incl.
-      `List.read`'s re-read from `anchor` of a discarded item, which also re-registers the link
-      definitions inside it).
+      PROVED (`_partial`): the same conclusion under the additional hypothesis that NO top-level
+      entry of `bA.entries` is a list (code blocks, fences, HTML blocks and link reference definitions
+      may precede the closed last block; nested content of quotes is arbitrary).  How: the readers of
+      the closed kinds (and `Footnote.read`, the `Table.read` probes, an HTML block of kind 6/7) stop
+      at a blank line exactly as at the end of input; BlockCode, CodeFence and the other HTML blocks
+      read across blank lines, but when a later block exists a line other than "\n" remains at or
+      after the cursor they returned, which forces them to have stopped before looking at the end of A.
+      Why lists are left out: `List.read` reads a whole item before it discovers that its marker does
+      not fit the list and re-reads it from `anchor`; the discarded read may have reached the end of A
+      (so it continues into `rest` on the longer buffer) although the cursor it returns is far from the
+      end.  Nothing depends on the discarded item except the definitions registered while reading it —
+      and whether the re-read at `anchor` is a list again depends on the token order.  The literal
+      statement (same state) is in fact FALSE for exotic token orders: see `list_discard_registers_twice`.
+      For the default order one needs: the re-read is the same `ListItem.read`, hence reaches the end of
+      A too, hence the last block of A is that list (or indented code after it), not a closed block.
 
   Combination (`C05_blank_line_independent_partial`): under the hypotheses of (P) and (S),
   `blockPhase (A ++ ["\n"] ++ B)` = A's entries ++ B's entries shifted by `A.length + 1`, `loose = true`.
@@ -83,21 +89,22 @@ theorem C05_gas_monotone (cfg : Cfg) (lines : List Line) (start : Nat) (st : St)
 
 /-! ### (P) -/
 
-/-- **Prefix independence (partial: every top-level block of A is of a closed kind).**
-    Let `tokenize_block(A)` return the buffer `bA` and the state `stA`, all of `bA`'s top-level entries
-    being paragraphs, setext/ATX headings, thematic breaks, block quotes or tables, A's lines ending
-    with their only newline, and `BlankLine` not among the token types.  Then for ANY lines `rest`,
+/-- **Prefix independence (partial: no top-level block of A is a list).**
+    Let `tokenize_block(A)` return the buffer `bA` and the state `stA`, none of `bA`'s top-level entries
+    being a list and the last one being a paragraph, setext/ATX heading, thematic break, block quote or
+    table (`lastClosed`), A's lines ending with their only newline, and `BlankLine` not among the token
+    types.  Then for ANY lines `rest`,
     the tokenizer on `A ++ "\n" :: rest` is, after some steps, the dispatch loop standing on the
     line after the "\n" with exactly A's entries accumulated, A's final state, and `loose = true`
     (with at least `extra` gas left, for any `extra` exceeding the number of token types). -/
 theorem C05_prefix_partial (cfg : Cfg) (hbl : .blankLine ∉ cfg.types) (A : List Line) (nl : Line) (hnl : nl.s = ['\n'])
     (rest : List Line) (start : Nat) (st : St) (gas : Nat) (bA : Buf) (stA : St)
-    (hA : tokenizeBlock cfg gas A start st = .ok (bA, stA)) (hcl : ∀ e ∈ bA.entries, closedE e = true)
+    (hA : tokenizeBlock cfg gas A start st = .ok (bA, stA)) (hnol : ∀ e ∈ bA.entries, noList e = true) (hlast : lastClosed bA.entries)
     (hnlA : AllNlEnd A) (extra : Nat) (hex : cfg.types.length < extra) :
     ∃ g', extra ≤ g' ∧
       tokenizeBlock cfg (gas + extra) (A ++ nl :: rest) start st =
         tokLoop cfg g' { lines := A ++ nl :: rest, pos := A.length + 1, start := start } stA bA.entries.reverse true :=
-  tokenizeBlock_prefix cfg hbl A nl hnl rest start st gas bA stA hA hcl hnlA extra hex
+  tokenizeBlock_prefix cfg hbl A nl hnl rest start st gas bA stA hA hnol hlast hnlA extra hex
 
 /-! ### Combination -/
 
@@ -137,13 +144,13 @@ theorem blockPhase_eq (cfg : Cfg) (gas : Nat) (lines : List Str) :
     blockPhase cfg gas lines = tokenizeBlock cfg gas (numbered 0 lines) 1 {} := rfl
 
 /-- **Blocks separated by a blank line are independent (partial), B read in A's final state.**
-    If the block phase on `A` returns `bA`/`stA` with every top-level entry a paragraph, setext/ATX
-    heading, thematic break, block quote or table, and the block phase on `B`, started in the state
+    If the block phase on `A` returns `bA`/`stA` with no top-level list and the last entry a paragraph,
+    setext/ATX heading, thematic break, block quote or table, and the block phase on `B`, started in the state
     `stA`, returns `bB`/`stB`, then the block phase on `A ++ ["\n"] ++ B` returns `bA`'s entries followed
     by `bB`'s entries with every line number raised by `A.length + 1`, `loose = true`, state `stB`. -/
 theorem C05_blank_line_independent_state (cfg : Cfg) (hbl : .blankLine ∉ cfg.types) (A B : List Str) (gA gB : Nat)
     (bA bB : Buf) (stA stB : St)
-    (hA : blockPhase cfg gA A = .ok (bA, stA)) (hcl : ∀ e ∈ bA.entries, closedE e = true)
+    (hA : blockPhase cfg gA A = .ok (bA, stA)) (hnol : ∀ e ∈ bA.entries, noList e = true) (hlast : lastClosed bA.entries)
     (hB : tokenizeBlock cfg gB (numbered 0 B) 1 stA = .ok (bB, stB))
     (hnlA : ∀ s ∈ A, NlEnd s) (hnlB : ∀ s ∈ B, NlEnd s) :
     blockPhase cfg (gA + (gB + cfg.types.length + 1)) (A ++ [['\n']] ++ B) =
@@ -157,7 +164,7 @@ theorem C05_blank_line_independent_state (cfg : Cfg) (hbl : .blankLine ∉ cfg.t
     rw [this]
   rw [hl]
   have := tokenizeBlock_concat cfg hbl (numbered 0 A) (numbered 0 B) { s := ['\n'], origin := A.length + 1 } rfl 1 {}
-    gA gB bA bB stA stB hA hcl hB (numbered_nlEnd 0 A hnlA) (numbered_nlEnd 0 B hnlB)
+    gA gB bA bB stA stB hA hnol hlast hB (numbered_nlEnd 0 A hnlA) (numbered_nlEnd 0 B hnlB)
   rw [numbered_length] at this ⊢
   exact this
 
@@ -166,7 +173,8 @@ theorem C05_blank_line_independent_state (cfg : Cfg) (hbl : .blankLine ∉ cfg.t
     about `blockPhase B` itself.  (`B` may define link references; they end up in `stB`.) -/
 theorem C05_blank_line_independent_partial (cfg : Cfg) (hbl : .blankLine ∉ cfg.types) (A B : List Str) (gA gB : Nat)
     (bA bB : Buf) (stA stB : St)
-    (hA : blockPhase cfg gA A = .ok (bA, stA)) (hcl : ∀ e ∈ bA.entries, closedE e = true) (hdef : stA.defs = [])
+    (hA : blockPhase cfg gA A = .ok (bA, stA)) (hnol : ∀ e ∈ bA.entries, noList e = true) (hlast : lastClosed bA.entries)
+    (hdef : stA.defs = [])
     (hB : blockPhase cfg gB B = .ok (bB, stB))
     (hnlA : ∀ s ∈ A, NlEnd s) (hnlB : ∀ s ∈ B, NlEnd s) :
     blockPhase cfg (gA + (gB + cfg.types.length + 1)) (A ++ [['\n']] ++ B) =
@@ -177,6 +185,180 @@ theorem C05_blank_line_independent_partial (cfg : Cfg) (hbl : .blankLine ∉ cfg
     simp only at hsx hdef
     subst hsx; subst hdef; rfl
   subst hst
-  exact C05_blank_line_independent_state cfg hbl A B gA gB bA bB _ stB hA hcl hB hnlA hnlB
+  exact C05_blank_line_independent_state cfg hbl A B gA gB bA bB _ stB hA hnol hlast hB hnlA hnlB
+
+/-! ### Non-vacuity -/
+
+def defaultTypes : List BTok :=
+  [.htmlBlock, .blockCode, .heading, .quote, .codeFence, .thematicBreak, .list, .table, .footnote, .paragraph]
+def cfg0 : Cfg := { types := defaultTypes }
+def L (s : String) : Str := s.toList
+
+def sampleA : List Str := [L "# h\n", L "```\n", L "code\n", L "```\n", L "> q\n", L "> r\n"]
+def sampleB : List Str := [L "- a\n", L "\n", L "  b\n"]
+
+/-- (kind, reported line number, ghost origin) of every entry, outermost first; kinds: 0 blockCode,
+    1 heading, 2 quote, 3 codeFence, 4 thematicBreak, 5 list, 6 table, 7 footnote, 8 linkRefDefs,
+    9 paragraph (third component: number of lines instead of the origin is NOT used; see `paraLines`),
+    10 setext, 11 htmlBlock, 12 blankLine, 13 list item -/
+def digest : List Entry → List (Nat × Nat × Nat)
+  | [] => []
+  | e :: es => (match e with
+      | .blockCode _ ln og => [(0, ln, og)]
+      | .heading _ _ _ ln og => [(1, ln, og)]
+      | .quote inner _ ln og => (2, ln, og) :: digest inner
+      | .codeFence _ _ _ _ _ ln og => [(3, ln, og)]
+      | .thematicBreak _ ln og => [(4, ln, og)]
+      | .list items ln og => (5, ln, og) :: digestI items
+      | .table _ _ ln og => [(6, ln, og)]
+      | .footnote _ ln og => [(7, ln, og)]
+      | .linkRefDefs _ ln og => [(8, ln, og)]
+      | .paragraph _ ln og => [(9, ln, og)]
+      | .setext _ ln og => [(10, ln, og)]
+      | .htmlBlock _ ln og => [(11, ln, og)]
+      | .blankLine ln og => [(12, ln, og)]) ++ digest es
+where digestI : List Item → List (Nat × Nat × Nat)
+  | [] => []
+  | .mk inner _ _ _ _ ln og :: is => (13, ln, og) :: digest inner ++ digestI is
+
+def digestR : Res (Buf × St) → Option (List (Nat × Nat × Nat) × Bool × Nat)
+  | .ok (b, st) => some (digest b.entries, b.loose, st.defs.length)
+  | .err _ => none
+
+/-- A = heading, fenced code, two-line quote; B = a loose list item: the three parses, with the numbers shown -/
+example : digestR (blockPhase cfg0 30 sampleA) = some ([(1, 1, 1), (3, 2, 2), (2, 5, 5), (9, 5, 5)], false, 0) := by decide +kernel
+example : digestR (blockPhase cfg0 30 sampleB) = some ([(5, 1, 1), (13, 1, 1), (9, 1, 1), (9, 3, 3)], false, 0) := by decide +kernel
+example : digestR (blockPhase cfg0 71 (sampleA ++ [['\n']] ++ sampleB)) =
+    some ([(1, 1, 1), (3, 2, 2), (2, 5, 5), (9, 5, 5), (5, 8, 8), (13, 8, 8), (9, 8, 8), (9, 10, 10)], true, 0) := by decide +kernel
+
+theorem nlEnd_of_check (s : Str) (h : (s.getLast? == some '\n' && !s.dropLast.contains '\n') = true) : NlEnd s := by
+  simp only [Bool.and_eq_true, beq_iff_eq, Bool.not_eq_eq_eq_not, Bool.not_true] at h
+  have hne : s ≠ [] := by intro e; subst e; simp at h
+  have hl : s.getLast hne = '\n' := by
+    have := h.1
+    rw [List.getLast?_eq_some_getLast hne] at this
+    exact Option.some.inj this
+  refine ⟨s.dropLast, ?_, ?_⟩
+  · have := List.dropLast_concat_getLast hne
+    rw [hl] at this; exact this.symm
+  · intro hm
+    have := h.2
+    simp [hm] at this
+
+def okClosed : Res (Buf × St) → Bool
+  | .ok (b, st) => b.entries.all noList && (match b.entries.getLast? with | some e => closedE e | none => true) && st.defs.isEmpty
+  | .err _ => false
+
+theorem okClosed_spec (b : Buf) (st : St) (h : okClosed (.ok (b, st)) = true) :
+    (∀ e ∈ b.entries, noList e = true) ∧ lastClosed b.entries ∧ st.defs = [] := by
+  simp only [okClosed, Bool.and_eq_true, List.all_eq_true, List.isEmpty_iff] at h
+  refine ⟨h.1.1, ?_, h.2⟩
+  intro e he
+  have := h.1.2
+  rw [he] at this
+  exact this
+
+/-- the hypotheses of `C05_blank_line_independent_partial` hold for `sampleA`, `sampleB` (kernel-evaluated),
+    so its conclusion does: an instance of the theorem -/
+example : ∃ bA bB stB, blockPhase cfg0 30 sampleA = .ok (bA, {}) ∧ blockPhase cfg0 30 sampleB = .ok (bB, stB) ∧
+    blockPhase cfg0 71 (sampleA ++ [['\n']] ++ sampleB) =
+      .ok ({ entries := bA.entries ++ shiftEntries (sampleA.length + 1) bB.entries, loose := true }, stB) := by
+  have hcA : okClosed (blockPhase cfg0 30 sampleA) = true := by decide +kernel
+  have hlB : (digestR (blockPhase cfg0 30 sampleB)).map (·.1.length) = some 4 := by decide +kernel
+  have hnA : ∀ s ∈ sampleA, NlEnd s := by
+    intro s hs; apply nlEnd_of_check; revert s; decide
+  have hnB : ∀ s ∈ sampleB, NlEnd s := by
+    intro s hs; apply nlEnd_of_check; revert s; decide
+  cases hA : blockPhase cfg0 30 sampleA with
+  | err e => rw [hA] at hcA; cases hcA
+  | ok rA =>
+    obtain ⟨bA, stA⟩ := rA
+    cases hB : blockPhase cfg0 30 sampleB with
+    | err e => rw [hB] at hlB; cases hlB
+    | ok rB =>
+      obtain ⟨bB, stB⟩ := rB
+      rw [hA] at hcA
+      obtain ⟨hnol, hlast, hdef⟩ := okClosed_spec bA stA hcA
+      have hsx : stA.setext = true := (sx_all cfg0 30).1 _ _ _ _ rfl hA
+      have hst : stA = {} := by
+        cases stA
+        simp only at hsx hdef
+        subst hsx; subst hdef; rfl
+      subst hst
+      exact ⟨bA, bB, stB, rfl, rfl,
+        C05_blank_line_independent_partial cfg0 (by decide) sampleA sampleB 30 30 bA bB _ stB hA hnol hlast rfl hB hnA hnB⟩
+
+/-- instance of `C05_suffix_shift` / `C05_suffix_local`: B = `sampleB` (a list: `ListItem.read` backsteps over
+    its trailing blank line, `List.read` re-anchors) behind the seven lines of `sampleA ++ ["\n"]` -/
+example : digestR (tokLoop cfg0 40
+      { lines := numbered 0 (sampleA ++ [['\n']]) ++ (numbered 0 sampleB).map (Line.sh 7), pos := 7, start := 1 } {} [] false) =
+    (digestR (tokenizeBlock cfg0 41 (numbered 0 sampleB) 1 {})).map
+      (fun r => (r.1.map (fun x => (x.1, x.2.1 + 7, x.2.2 + 7)), r.2)) := by decide +kernel
+
+example := C05_suffix_shift cfg0 40 (numbered 0 (sampleA ++ [['\n']])) (numbered 0 sampleB) 1 {} [] false
+  (numbered_nlEnd 0 sampleB (by intro s hs; apply nlEnd_of_check; revert s; decide))
+
+/-- readers that step back at the very start of B: an HTML block ended by a blank line (`backstep`),
+    indented code with trailing blank lines (gives them back) — same digest with three lines in front -/
+example :
+    let B : List Line := numbered 3 [L "<div>\n", L "\n", L "    code\n", L "\n", L "\n"]
+    let pre : List Line := numbered 0 [L "x\n", L "y\n", L "\n"]
+    digestR (tokLoop cfg0 40 { lines := pre ++ B, pos := 3, start := 1 } {} [] false) =
+      digestR (tokLoop cfg0 40 { lines := B, pos := 0, start := 4 } {} [] false) ∧
+    digestR (tokLoop cfg0 40 { lines := B, pos := 0, start := 4 } {} [] false) = some ([(11, 4, 4), (0, 6, 6)], true, 0) := by
+  decide +kernel
+
+/-- **The side condition of (S) is needed.**  A "line" with two newlines (impossible after
+    `Document.__init__` on a string or on file lines, C15): `Footnote.read` finds no definition and
+    hands back `count('\n') = 2` lines although it consumed one, so the cursor lands inside the
+    preceding lines; the paragraph then reports line 3 instead of 4.  (The real code does the same:
+    `Document(['# x\n','# y\n','# z\n','[a\n\n'])` ends with a Paragraph at line 3 that re-reads `# z`.) -/
+theorem suffix_needs_complete_lines :
+    let B : List Line := [{ s := L "[a\n\n", origin := 4 }]
+    let pre : List Line := numbered 0 [L "# x\n", L "# y\n", L "# z\n"]
+    digestR (tokLoop cfg0 40 { lines := pre ++ B, pos := 3, start := 1 } {} [] false) = some ([(9, 3, 4)], false, 0) ∧
+    digestR (tokLoop cfg0 40 { lines := B, pos := 0, start := 4 } {} [] false) = some ([(9, 4, 4)], false, 0) := by
+  decide +kernel
+
+/-- instance of `C05_prefix_partial`: whatever follows the blank line after `sampleA` -/
+example (rest : List Line) : ∃ bA stA g', 30 ≤ g' ∧ tokenizeBlock cfg0 30 (numbered 0 sampleA) 1 {} = .ok (bA, stA) ∧
+    tokenizeBlock cfg0 60 (numbered 0 sampleA ++ { s := ['\n'], origin := 7 } :: rest) 1 {} =
+      tokLoop cfg0 g' { lines := numbered 0 sampleA ++ { s := ['\n'], origin := 7 } :: rest, pos := 7, start := 1 } stA
+        bA.entries.reverse true := by
+  have hcA : okClosed (blockPhase cfg0 30 sampleA) = true := by decide +kernel
+  cases hA : blockPhase cfg0 30 sampleA with
+  | err e => rw [hA] at hcA; cases hcA
+  | ok rA =>
+    obtain ⟨bA, stA⟩ := rA
+    rw [hA] at hcA
+    obtain ⟨hnol, hlast, _⟩ := okClosed_spec bA stA hcA
+    obtain ⟨g', hg, heq⟩ := C05_prefix_partial cfg0 (by decide) (numbered 0 sampleA) { s := ['\n'], origin := 7 } rfl rest 1 {} 30
+      bA stA hA hnol hlast (numbered_nlEnd 0 sampleA (by intro s hs; apply nlEnd_of_check; revert s; decide)) 30 (by decide)
+    exact ⟨bA, stA, g', hg, hA, heq⟩
+
+/-- (P) fails without the restriction on the LAST block, as it must: A = a list item; B continues it -/
+example : digestR (blockPhase cfg0 30 [L "- a\n"]) = some ([(5, 1, 1), (13, 1, 1), (9, 1, 1)], false, 0) ∧
+    digestR (blockPhase cfg0 30 [L "- a\n", L "\n", L "  b\n"]) =
+      some ([(5, 1, 1), (13, 1, 1), (9, 1, 1), (9, 3, 3)], false, 0) := by decide +kernel
+
+def cfgX : Cfg := { types := [.table, .list, .footnote, .paragraph] }
+def exA : List Str := [L "- a\n", L "* b | c\n", L "|-|-|\n"]
+def exB : List Str := [L "  [x]: y\n"]
+
+/-- **Why lists are left out of (P), and why the literal full-strength statement needs the default
+    token order.**  Token order `[Table, List, Footnote, Paragraph]` (possible through
+    `block_token._token_types`): A = "- a", "* b | c", "|-|-|" gives a list and a table (closed last
+    block), no definition.  `List.read` first reads "* b | c" … as an item (to the end of A), sees that
+    `*` does not fit the `-` list, and re-reads from "* b | c", now as a table.  With B = "  [x]: y"
+    behind a blank line the discarded item also swallows B, so `append_footnotes` is called twice with
+    `[x]` (kinds: 5 list, 6 table, 7 footnote; last component = number of definitions registered).
+    The real code does the same (two `append_footnotes` calls); its `footnotes` dict ignores the
+    second one, and the entries are as C05 says. -/
+theorem list_discard_registers_twice :
+    digestR (blockPhase cfgX 60 exA) = some ([(5, 1, 1), (13, 1, 1), (9, 1, 1), (6, 2, 2)], false, 0) ∧
+    digestR (blockPhase cfgX 60 exB) = some ([(7, 1, 1)], false, 1) ∧
+    digestR (blockPhase cfgX 60 (exA ++ [['\n']] ++ exB)) =
+      some ([(5, 1, 1), (13, 1, 1), (9, 1, 1), (6, 2, 2), (7, 5, 5)], true, 2) := by
+  refine ⟨?_, ?_, ?_⟩ <;> decide +kernel
 
 end Mistletoe.Props.C05
